@@ -241,7 +241,7 @@ func runC08(p *Prog, r *Report, tier string) {
 	}
 	if c := p.fc(r, p.Func("types.PerMessageBurnLimitKey"), "PerMessageBurnLimitKey", nil); c != nil {
 		for _, ret := range allReturns(c.fn) {
-			c.teq("K-agree", "key-shape", c.term(ret.Results[0], ret), `append([]byte(p0),[]byte("/"))`, p.instrPos(ret))
+			c.teq("K-agree", "key-shape", c.term(ret.Results[0], ret), `cat([]byte(p0),[]byte("/"))`, p.instrPos(ret))
 		}
 	}
 	if c := p.fc(r, p.Func("keeper.msgServer.depositForBurn"), "depositForBurn", abDFBl); c != nil {
